@@ -478,6 +478,10 @@ def machine_factory():
         def set_vector(self, vec):
             self._do({"op": "set", "vec": vec, "idx": None})
 
+        @rule(vec=st.lists(st.sampled_from([0.0, 1.0, -1.0, 0.5, 2.0, -0.25, 1e-10]), min_size=6, max_size=6))
+        def set_round_vector(self, vec):
+            self._do({"op": "set", "vec": vec, "idx": None})
+
         @rule(vec=VEC, idx=st.lists(st.integers(0, 5), min_size=1, max_size=3, unique=True))
         def set_partial(self, vec, idx):
             self._do({"op": "set", "vec": vec, "idx": idx})
@@ -687,7 +691,7 @@ PROPERTY = Property(
     rule=(
         "graphs: every labelled DAG over E <= 4 expression parameters placed with P <= 2 plain parameters at every choice of "
         "declaration positions (= every acyclic dependency graph in every declaration order), two patterns of plain references "
-        "(23 085 cases, hash-sampled 1/4 in quick); random / machine: 2..6 parameters, random trees over + - * / neg exp log sqrt abs sin, "
+        "(23 056 cases, hash-sampled 1/4 in quick); random / machine: 2..6 parameters, random trees over + - * / neg exp log sqrt abs sin, "
         "flat and nested labels, list / nested dict / records / yml_str constructors, optimiser-like full and partial update vectors "
         "(logarithms for non-negative parameters), copy, explicit update, csv save/load, yml_str load; optimize: verif-table fits whose "
         "rates are all parameters of the set, every evaluated rate vector logged. Non-trivial: some expression references an "
